@@ -25,7 +25,11 @@ TRANSFORMS = {
     'x3p1': (lambda a: a * 3 + 1),
     'neg': (lambda a: -a),
     'f32': (lambda a: a.astype(np.float32)),
+    # not element-wise (shape-preserving): they tell transform(array[first]) from transform(array)[first]
+    'cumsum0': (lambda a: np.cumsum(a, axis=0, dtype=a.dtype) if a.ndim else a),
+    'flip0': (lambda a: a[::-1] if a.ndim else a),
 }
+NONELEM = ('cumsum0', 'flip0')
 
 
 def gen_axis_ix(rng, n, stage):
@@ -75,7 +79,10 @@ def gen_case(rng):
         stages.append(k)
         cur = shape_after(cur, k)
     k2 = gen_tuple(rng, cur, 2)
-    tf = [rng.choice(sorted(TRANSFORMS)) for _ in range(rng.choice([0, 0, 1, 2]))]
+    elementwise = sorted(t for t in TRANSFORMS if t not in NONELEM)
+    tf = [rng.choice(elementwise) for _ in range(rng.choice([0, 0, 1, 2]))]
+    if rng.random() < 0.15:
+        tf.insert(rng.randint(0, len(tf)), rng.choice(NONELEM))
     return dict(kind='chain', shape=shape, chunks=chunks, stages=stages, k2=k2, transforms=tf,
                 joint=rng.random() < 0.25, mutate=rng.random() < 0.3, arr=[rng.random() < 0.5 for _ in range(64)])
 
@@ -166,6 +173,22 @@ def judge(ctx, case, mreply, sreply, impl):
             ctx.advise(f'impl answered an invalid request {request_line(case)}')
         return None
     shape1, exp, sels = s
+    if any(t in NONELEM for t in case['transforms']):
+        # transform(array[first stage])[second stage] with a transform that is not element-wise: the two
+        # selections are taken from the model separately and the transform chain is applied in between
+        ctx.tag('non-elementwise-transform')
+        ra = common.run_model('C04', [request_line(dict(case, k2=[]), 'specchain')])[0]
+        if ra.startswith('E:'):
+            return None
+        sh1, s1 = ra.split(' ')
+        rb = common.run_model('C04', [f"spec {sh1} {ixgen.enc_tuple(case['k2'])}"])[0]
+        if rb.startswith('E:'):
+            return None
+        src = np.arange(int(np.prod(case['shape'])), dtype=np.int64).reshape(tuple(case['shape']))
+        mid = ixgen.apply_sels(src, ixgen.parse_sels(s1))
+        for t in case['transforms']:
+            mid = TRANSFORMS[t](mid)
+        exp = ixgen.apply_sels(mid, ixgen.parse_sels(rb.split(' ')[-1]))
     if impl['err'] is not None:
         return f"implementation raised {impl['err']} where outer indexing gives shape {exp.shape}"
     out = impl['out']
@@ -266,6 +289,15 @@ def run_readset_impl(case):
             ja, jb = DaskLazyIndexer.get([ind_a, ind_b], k2)
             res['joint_ok'] = bool(np.array_equal(ja, res['out']) and np.array_equal(jb, res['out'] + 100000))
             res['joint_calls'] = (sorted(c[1:] for c in calls if c[0] == 0), sorted(c[1:] for c in calls if c[0] == 1))
+            # joint retrieval of several indexers over the SAME stored array (plain, transformed, nested): every
+            # overlapping chunk is still read once
+            del calls[:]
+            same = [DaskLazyIndexer(arr, k1), DaskLazyIndexer(arr, k1, [lambda a: a * 3 + 1]),
+                    DaskLazyIndexer(DaskLazyIndexer(arr, k1), ())]
+            outs = DaskLazyIndexer.get(same, k2)
+            res['same_ok'] = bool(np.array_equal(outs[0], res['out']) and np.array_equal(outs[1], res['out'] * 3 + 1)
+                                  and np.array_equal(outs[2], res['out']))
+            res['same_calls'] = sorted(c[1:] for c in calls if c[0] == 0)
         except Exception as e:   # noqa: BLE001
             res['err'] = type(e).__name__
     return res
@@ -346,6 +378,11 @@ def evaluate(ctx, cases):
                             (impl['joint_calls'][0] != want or impl['joint_calls'][1] != want):
                         v = (f"joint get() read chunks {impl['joint_calls']} instead of the overlapping chunks "
                              f'{want} from each store once')
+                    if v is None and impl.get('same_ok') is False:
+                        v = 'joint get() of indexers over one stored array differs from fetching them one by one'
+                    elif v is None and exp.size and impl.get('same_calls') is not None and impl['same_calls'] != want:
+                        v = (f"joint get() of three indexers over one stored array read chunks {impl['same_calls']} "
+                             f'instead of each overlapping chunk {want} once')
                     ctx.traces_validated += 1
                 ctx.tag('readset')
             ctx.count(lines[2 * i], impl.get('out') is not None and impl['out'].size > 0,
